@@ -20,7 +20,13 @@ impl FlattenedJson {
     /// Create a `FlattenedJson` from `Raw`.
     pub fn from_raw<T>(raw: &Raw<T>) -> Self {
         let mut s = Self { map: BTreeMap::new() };
-        s.flatten_value(to_json_value(raw).unwrap(), None);
+        // Converting the raw JSON to a value fails if it is nested deeper than serde_json's
+        // recursion limit, which a `Raw` can hold. Such an event has no property that a push
+        // condition can address.
+        match to_json_value(raw) {
+            Ok(value) => s.flatten_value(value, None),
+            Err(error) => warn!("Failed to flatten JSON: {error}"),
+        }
         s
     }
 
